@@ -263,7 +263,59 @@ D14 == [parts |-> <<T("GPOS4:"), T("-ligs"), NL, T("mark M: 0@100,100 ;"), NL, T
                      marks |-> <<<<13, 0, <<100, 100>>>>, <<14, 1, <<200, -100>>>>>>,
                      bases |-> <<<<1, <<<<400, 1000>>, <<500, 1000>>>>>>, <<2, <<<<1, 2>>, <<3, 4>>>>>>>>]>>)>>]
 
-Descs == <<D1, D2, D3, D4, D5, D6, D7, D8, D9, D10, D11, D12, D13, D14>>
+(* Redundant but legal notation.  Wherever the notation takes a SET of glyphs -- the /coverage/ list of a class  *)
+(* based subtable, a class definition, a [glyph set] of a coverage based subtable (input, backtrack, lookahead),  *)
+(* the set of a GPOS1 subtable, an alternate set -- duplicates, overlapping ranges, reversed ranges and a range    *)
+(* that contains a glyph listed before do not change the set: the result is the sorted set, and a coverage table  *)
+(* numbers it 0..n-1 without gaps (Dense).  Where the notation is ORDERED -- the replacement of a multiple        *)
+(* substitution, the components of a ligature, the input of a glyph-based rule -- a repeated glyph is repeated.   *)
+D15 == LET cx == <<N("C"), To, N("A"), N("B")>> cov == <<N("A"), To, N("C"), N("B"), To, N("D")>> IN
+  [parts |-> <<T("GSUB5:"), T("class :x: = ["), L(cx), T("]"), NL, T("/"), L(cov), T("/"), T(":x: :: -> 1@0"), NL>>,
+   mean  |-> <<Lk(5, {}, <<[k |-> "ctx2", cov |-> SetOf(cov), cls |-> [i \in 1..3 |-> <<SetOf(cx)[i], 1>>],
+                            rules |-> << <<>>, <<[in |-> <<0>>, act |-> <<Act(1, 0)>>]>> >>]>>)>>]
+D16 == LET ci == <<N("B"), N("B"), N("A")>> cov == <<N("B"), N("A"), N("B"), S(<<"A">>)>> IN
+  [parts |-> <<T("GSUB6:"), T("inputclass :i: = ["), L(ci), T("]"), NL, T("/"), L(cov), T("/"), T("| :i: | -> 2@0"), NL>>,
+   mean  |-> <<Lk(6, {}, <<[k |-> "cc2", cov |-> SetOf(cov), bcls |-> <<>>, cls |-> <<<<1, 1>>, <<2, 1>>>>, acls |-> <<>>,
+                            rules |-> << <<>>, <<[back |-> <<>>, in |-> <<>>, ahead |-> <<>>, act |-> <<Act(2, 0)>>]>> >>]>>)>>]
+D17 == LET a == <<N("A"), N("B"), N("A")>> b == <<N("C"), To, N("A"), N("B")>>
+           c == <<N("B"), N("A"), N("A")>> d == <<N("D"), To, N("B"), N("C")>> e == <<N("A"), To, N("B"), N("A"), To, N("B")>> IN
+  [parts |-> <<T("GSUB5:"), T("["), L(a), T("] ["), L(b), T("] -> 1@1"), NL,
+               T("GSUB6:"), T("["), L(c), T("] | ["), L(d), T("] | ["), L(e), T("] -> 1@0"), NL>>,
+   mean  |-> <<Lk(5, {}, <<[k |-> "ctx3", in |-> <<SetOf(a), SetOf(b)>>, act |-> <<Act(1, 1)>>]>>),
+               Lk(6, {}, <<[k |-> "cc3", back |-> <<SetOf(c)>>, in |-> <<SetOf(d)>>, ahead |-> <<SetOf(e)>>,
+                            act |-> <<Act(1, 0)>>]>>)>>]
+D18 == LET g == <<N("A"), To, N("C"), N("B"), N("C"), To, N("B")>> IN
+  [parts |-> <<T("GPOS1:"), T("["), L(g), T("]"), T("-> x+1"), NL>>,
+   mean  |-> <<Lk(1, {}, <<[k |-> "pos1set", cov |-> SetOf(g), adj |-> VR(1, 0, 0)]>>)>>]
+D19 == LET cov == <<N("B"), N("A"), N("B"), N("A"), To, N("B")>> IN
+  [parts |-> <<T("GPOS2:"), NL, T("/"), L(cov), T("/"), NL, T("first A ;"), NL, T("second B ;"), NL,
+               T("_ , _ ,"), NL, T("_ , dx+1"), NL>>,
+   mean  |-> <<Lk(2, {}, <<[k |-> "pairclass", cov |-> SetOf(cov), c1 |-> <<<<1, 1>>>>, c2 |-> <<<<2, 1>>>>,
+                            adj |-> << <<<<NoVR, NoVR>>, <<NoVR, NoVR>>>>, <<<<NoVR, NoVR>>, <<VR(0, 0, 1), NoVR>>>> >>]>>)>>]
+\* ordered lists keep repeated glyphs
+D20 == LET r == <<N("B"), N("B"), N("A"), To, N("B")>> IN
+  [parts |-> <<T("GSUB2:"), T("A"), T("->"), L(r), NL, T("GSUB4:"), T("A A A -> A"), NL, T("GSUB5:"), T("A A -> 1@0"), NL>>,
+   mean  |-> <<Lk(2, {}, <<[k |-> "multiple", map |-> <<<<1, Ev(r)>>>>]>>),
+               Lk(4, {}, <<[k |-> "ligature", map |-> <<<<1, <<<<<<1, 1>>, 1>>>>>>>>]>>),
+               Lk(5, {}, <<[k |-> "ctx1", map |-> <<<<1, <<[in |-> <<1>>, act |-> <<Act(1, 0)>>]>>>>>>]>>)>>]
+\* the same glyph put into the same class twice, the same class defined twice with the same set: nothing is
+\* contradictory, the parser may refuse the repetition -- but if it accepts, the meaning is the set (mayfail)
+D21 == [parts |-> <<T("GPOS2:"), NL, T("/A/"), NL, T("first A A ;"), NL, T("second B ;"), NL, T("_ , _ ,"), NL, T("_ , dx+1"), NL>>,
+        mayfail |-> TRUE,
+        mean  |-> <<Lk(2, {}, <<[k |-> "pairclass", cov |-> <<1>>, c1 |-> <<<<1, 1>>>>, c2 |-> <<<<2, 1>>>>,
+                     adj |-> << <<<<NoVR, NoVR>>, <<NoVR, NoVR>>>>, <<<<NoVR, NoVR>>, <<VR(0, 0, 1), NoVR>>>> >>]>>)>>]
+D22 == [parts |-> <<T("GSUB5:"), T("class :x: = [A]"), NL, T("class :x: = [A]"), NL, T("/A/ :x: -> 1@0"), NL>>,
+        mayfail |-> TRUE,
+        mean  |-> <<Lk(5, {}, <<[k |-> "ctx2", cov |-> <<1>>, cls |-> <<<<1, 1>>>>,
+                     rules |-> << <<>>, <<[in |-> <<>>, act |-> <<Act(1, 0)>>]>> >>]>>)>>]
+
+Descs == <<D1, D2, D3, D4, D5, D6, D7, D8, D9, D10, D11, D12, D13, D14, D15, D16, D17, D18, D19, D20, D21, D22>>
+MayFail(d) == "mayfail" \in DOMAIN d
+
+\* coverage tables number their glyphs 0, 1, 2, ... in increasing glyph order, without gaps
+\* (ci: per lookup, per subtable, per coverage table the indices in glyph order)
+Dense(ci) == \A i \in 1..Len(ci) : \A j \in 1..Len(ci[i]) : \A t \in 1..Len(ci[i][j]) :
+               \A q \in 1..Len(ci[i][j][t]) : ci[i][j][t][q] = q - 1
 
 ---------------------------------------------------------------------------
 (* 3. numbers.  Wherever the grammar takes a number -- the lookup index L and the sequence    *)
